@@ -267,6 +267,11 @@ func C18Generate() {
 	g := generator.NewGenerator(gmodel.Code{BaseCode: base})
 	res, err := g.Generate(outPath, output, dry)
 
+	// the import optimiser reads the sibling files of the file it is told about and leaves exactly
+	// that file out: told the output path, it never sees what an earlier run left there
+	if k := lastEffect("imports.Process"); k >= 0 {
+		vrt.Assert("import-optimiser-is-told-the-output-path", vrt.EffectStr(k, 0) == outPath)
+	}
 	ws, stray := fsWrites(-1)
 	nWrite := len(ws)
 	nPrint := countEffects("print:stdout")
@@ -339,6 +344,10 @@ func C15Run() {
 			vrt.Assert("log-target", vrt.EffectStr(0, 0) == conf.Log)
 			vrt.Assert("log-flags", vrt.EffectInt(0, 1) == 0x242) // O_RDWR|O_CREATE|O_TRUNC
 		}
+	}
+	if k := lastEffect("imports.Process"); k >= 0 {
+		// (see C18Generate: the stale output must be the one file the import optimiser does not read)
+		vrt.Assert("import-optimiser-is-told-the-output-path", vrt.EffectStr(k, 0) == conf.Output)
 	}
 	ws, stray := fsWrites(logAt)
 	nWrite := len(ws)
